@@ -33,7 +33,7 @@ class Tok:
         if not (lo <= v <= hi): raise Reject("out of range")
         return v
     def pos(self, hi=U32MAX): return self.rng(0, hi)
-    def atom(self): return self.rng(1, I32MAX)
+    def atom(self): return self.rng(1, getattr(self, "amax", I32MAX))     # `amax`: the reader's configurable atom limit (setMaxVar)
     def lit(self):
         v = self.rng(-I32MAX, I32MAX)
         if v == 0: raise Reject("literal 0")
